@@ -350,3 +350,59 @@ META = {
     'not_decided': ["that Newton/secant converge for every input", "Seeger-Beste equation, bracket and monotonicity (uninterpreted ln/cos; grid only)"],
     'trusted_base': ['assumed contract of scipy.optimize.newton', 'axioms of 10**u / log10 and the log-normalisation rewriter', 'intermediate value theorem / injectivity meta-rules', 'floats = reals'],
 }
+
+
+# ---------------------------------------------------------------------------------------------
+# Seeger-Beste: the terms of eq. 2.8-42 / 2.8-43 as the real helper functions compute them (ln / cos uninterpreted)
+# ---------------------------------------------------------------------------------------------
+SBF = [SB + '.' + m for m in ('_e_star', '_neuber_strain', '_u_term', '_middle_term', '_stress_implicit', '_delta_e_star', '_neuber_strain_secondary', '_u_term_secondary',
+                              '_middle_term_secondary', '_stress_secondary_implicit', '_load_implicit', '_load_secondary_implicit', 'strain', 'strain_secondary_branch')]
+
+
+def sb_params(o):
+    E, K, n, Kp = o.reals('E K n K_p')
+    o.assume(E > 0, K > 0, n > 0, n < 1, Kp > 1)
+    return o.new(SB, E, K, n, Kp), (E, K, n, Kp)
+
+
+@obligation('C06', 'seegerbeste.terms', functions=SBF)
+def seegerbeste_terms(o):
+    """the building blocks of the Seeger-Beste equation, for every sigma != 0, L != 0 of either sign (four sign cases), scalar-like and Series elements:
+    Neuber term = (L/sigma) K_p e*(L), u = pi/2 (L/sigma - 1)/(K_p - 1), middle term = 2/u^2 ln(1/cos u) + (sigma/L)^2 - sigma/L (for u != 0, cos u > 0),
+    f(sigma, L) = eps(sigma) / (middle * Neuber) - 1; the same with the Masing-doubled curve for the secondary branch; the load-direction functions are the same
+    terms with swapped arguments; every term has the parity that makes f(-sigma, -L) = f(sigma, L) (so that the returned root is odd in the load)"""
+    from pv.sym import ln, cos_
+    law, (E, K, n, Kp) = sb_params(o)
+    s, L = o.reals('sigma L')
+    PI = z3.Real('PI')
+    for tag in sign_cases(o, s, L):
+        kind = 'series'
+        for suffix, strain_of, estar_of in (('', lambda x: eps(E, K, n, x), lambda x: eps(E, K, n, x / Kp)),
+                                            ('_secondary', lambda x: 2 * eps(E, K, n, x / 2), lambda x: 2 * eps(E, K, n, x / Kp / 2))):
+            br = 'secondary' if suffix else 'primary'
+            nst = o.run1(lambda: call(o, law, '_neuber_strain' + suffix, SV(s, kind=kind), SV(L, kind=kind)), label=f'_neuber_strain{suffix}[{tag}]')
+            o.prove(f'{br}: Neuber term == (L/sigma) K_p e*(L) [{tag}]', nst.t == (L / s) * Kp * estar_of(L), pairs=False)
+            nm = o.run1(lambda: call(o, law, '_neuber_strain' + suffix, SV(-s, kind=kind), SV(-L, kind=kind)), label=f'_neuber_strain{suffix}(-,-)[{tag}]')
+            o.prove(f'{br}: Neuber term is odd under (sigma, L) -> (-sigma, -L) [{tag}]', nm.t == -nst.t, pairs=False)
+            u = o.run1(lambda: call(o, law, '_u_term' + suffix, SV(s, kind=kind), SV(L, kind=kind)), label=f'_u_term{suffix}[{tag}]')
+            uspec = (PI / 2) * ((L / s - 1) / (Kp - 1))
+            o.prove(f'{br}: u == pi/2 (L/sigma - 1)/(K_p - 1) [{tag}]', u.t == uspec, pairs=False)
+            um = o.run1(lambda: call(o, law, '_u_term' + suffix, SV(-s, kind=kind), SV(-L, kind=kind)), label=f'_u_term{suffix}(-,-)[{tag}]')
+            o.prove(f'{br}: u is even under (sigma, L) -> (-sigma, -L) [{tag}]', um.t == u.t, pairs=False)
+            base = list(o.hyps)
+            uu, _ = o.define(f'u{suffix}_{tag}', uspec)
+            o.hyps.append(uu != 0)
+            o.hyps.append(cos_(uu) > 0)
+            mid = o.run1(lambda: call(o, law, '_middle_term' + suffix, SV(s, kind=kind), SV(L, kind=kind)), label=f'_middle_term{suffix}[{tag}]')
+            midspec = (2 / (uu * uu)) * ln(1 / cos_(uu)) + (s / L) * (s / L) - (s / L)
+            o.prove(f'{br}: middle term == 2/u^2 ln(1/cos u) + (sigma/L)^2 - sigma/L [{tag}]', mid.t == midspec, pairs=False)
+            f = o.run1(lambda: call(o, law, '_stress' + suffix + '_implicit', SV(s, kind=kind), SV(L, kind=kind)), label=f'_stress{suffix}_implicit[{tag}]')
+            o.prove(f'{br}: f == eps(sigma) / (middle * Neuber) - 1 [{tag}]', f.t == strain_of(s) / (midspec * ((L / s) * Kp * estar_of(L))) - 1, pairs=False)
+            g = o.run1(lambda: call(o, law, '_load' + suffix + '_implicit', SV(L, kind=kind), SV(s, kind=kind)), label=f'_load{suffix}_implicit[{tag}]')
+            o.prove(f'{br}: load-direction function == f with swapped arguments [{tag}]', g.t == f.t, pairs=False)
+            o.hyps = base
+        st = o.run1(lambda: call(o, law, 'strain', SV(s, kind=kind), SV(L, kind=kind)), label=f'strain[{tag}]')
+        o.prove(f'strain(sigma, L) is the Ramberg-Osgood strain [{tag}]', st.t == eps(E, K, n, s), pairs=False)
+        st2 = o.run1(lambda: call(o, law, 'strain_secondary_branch', SV(s, kind=kind), SV(L, kind=kind)), label=f'strain_secondary_branch[{tag}]')
+        o.prove(f'strain_secondary_branch is the doubled curve [{tag}]', st2.t == 2 * eps(E, K, n, s / 2), pairs=False)
+    o.note("u = 0 (sigma = L, elastic limit) and cos u <= 0 (L/sigma >= K_p) select the fall-back factors of the code (1 instead of the quotient); they are outside the domain of eq. 2.8-42")
